@@ -556,6 +556,8 @@ def run(ctx):
     r3c_syscalls(ctx, prog)
     r1c_fresh_holders(ctx, prog)
     r1d_map_accounting(ctx, prog)
+    from rules import c11
+    c11.r6_store_key(ctx, prog, rule_id='C05.R6')
 
 
 MUTANTS = [
